@@ -269,6 +269,13 @@ def b64(s):
     return base64.b64encode(s if isinstance(s, bytes) else s.encode('utf-8', 'surrogateescape')).decode()
 
 
+def bytes_of(b):
+    """The bytes of a Go string, as a list of ints (decoded to runes by the Lean model `runes`)."""
+    if isinstance(b, str):
+        b = b.encode('utf-8', 'surrogateescape')
+    return list(b)
+
+
 def runes_of(b):
     """Go's []rune(string(b)) (utf8.DecodeRune): an invalid byte becomes U+FFFD, width 1."""
     if isinstance(b, str):
